@@ -241,7 +241,7 @@ func c18(c *an.Check) {
 
 func init() {
 	register(&Def{ID: "C18", Run: c18,
-		Explain:     "Decides on SSA: (R1) no grant is decrypted and no payload returned unless bytes.Equal(stored context hash, hash(context)) was true, and a mismatch returns a non-nil error; (MIRROR) seal and unseal build the grant context from (envelope id, caller's context, loop index) and the payload key from (scalar, envelope id, caller's context), encrypt/decrypt grants under exactly that context, and the envelope records hash(context); (CONCAT) both context-string builders write every string parameter immediately preceded by the decimal of its own length and a separator, and bind every parameter; (PANIC) unsealing has no undischarged compiler-unproven bounds check (the nonce split is guarded by len(ct) >= aead.NonceSize() of the same AEAD), and secretsharing.Recover's distinct-id precondition is carried by the canonical de-duplication key. (PANIC) the grant decryption chain (DecryptWithPrivKey/DecryptWithEd25519/extra25519) is part of the totality scope; (LOOPALLOC) one seen-set across all grants.",
+		Explain:     "Decides on SSA: (R1) no grant is decrypted and no payload returned unless bytes.Equal(stored context hash, hash(context)) was true, and a mismatch returns a non-nil error; (MIRROR) seal and unseal build the grant context from (envelope id, caller's context, loop index) and the payload key from (scalar, envelope id, caller's context), encrypt/decrypt grants under exactly that context, and the envelope records hash(context); (CONCAT) both context-string builders write every string parameter immediately preceded by the decimal of its own length and a separator, and bind every parameter; (PANIC) unsealing has no undischarged compiler-unproven bounds check (the nonce split is guarded by len(ct) >= aead.NonceSize() of the same AEAD), and secretsharing.Recover's distinct-id precondition is carried by the canonical de-duplication key. (PANIC) the grant decryption chain (DecryptWithPrivKey/DecryptWithEd25519/extra25519) is part of the totality scope; (LOOPALLOC) one seen-set across all grants. Generated codec sanity for package envelope; decrypt leaves its input untouched.",
 		NotCov:      "AEAD integrity and 'never a different payload' as a value statement (trusted AEAD + the mirror).",
 		Assumptions: commonAssumptions})
 }
